@@ -340,7 +340,7 @@ def run(prop, tier, seed):
             "states": states, "transitions": trans, "traces_validated_against_impl": len(scs), "samples": samples, "exhaustive": True,
             "models": models,
             "model": {"module": "spec/Session.tla",
-                      "invariants": ["TypeOK", "WillsOnce", "AllWillsRun", "NoCrash", "NoMisroute", "NoLeak", "QueuedLive", "OneDisposition", "DrainedClean", "HoldsSurvive (action property)"] + ([] if quick else ["QueuedEnd (liveness)"]),
+                      "invariants": ["TypeOK", "WillsOnce", "AllWillsRun", "NoCrash", "NoMisroute", "NoLeak", "QueuedLive", "OneDisposition", "DrainedClean", "HoldsSurvive (action property)", "LeftBehindStable (action property, with third-party Traffic steps)"] + ([] if quick else ["QueuedEnd (liveness)"]),
                       "named_deviations": {"F1": "closed inited binary connection looks itself up in the clients table: unbounded recursion (repaired fb81e61)", "F2": "text wills re-registered instead of executed (repaired 4d4abfd)", "F4": "never-announced connections share the all-zero proxy client id and were re-routed to a client that announced it (repaired 9dea0f2: an all-zero proxy id is never looked up)"}},
             "counterexamples_replayed": cex,
             "tlc_behaviours_replayed": len(beh_scs), "tlc_behaviours_ending_in_model_crash": model_crashes,
